@@ -1,8 +1,9 @@
 (* Correspondence driver for the Bloom filter: replays a Z-encoded case on the model and
-   yields the same observations the Rust harness prints; plus the property oracle (the
+   yields the same observations the Rust harness prints; plus the property oracles (the
    Spec: a set of bit positions per slot, kept as a characteristic vector, written
-   independently of the model).  No proofs here.  Op codes: tools/families/bloom.py. *)
-From DS Require Import Base.Prelude Model.Bloom.
+   independently of the model; the layout decoder of Spec/BloomLayout.v; the generic twin /
+   no-panic oracles).  No proofs here.  Op codes: tools/families/bloom.py. *)
+From DS Require Import Base.Prelude Base.Oracles Model.Bloom Spec.BloomLayout.
 Open Scope Z_scope.
 
 Definition slots := list (option bloom).
@@ -20,6 +21,8 @@ Fixpoint count_contained (f : bloom) (l : list Z) (acc : Z) : Z :=
   | _ => acc
   end.
 
+(* an operation addressed to a slot that holds no filter (e.g. after a rejected image) is a
+   harness-level no-op observed as EMPTY on both sides *)
 Definition step (st : slots) (o : zop) : slots * list Z :=
   let '(code, a) := o in
   let slot := nth 0 a 0 in
@@ -29,54 +32,54 @@ Definition step (st : slots) (o : zop) : slots * list Z :=
          | _ => (st, PANIC) end
   | 1 => match get_slot st slot with
          | Some f => (put_slot st slot (bf_insert f (arg_h0 a) (arg_h1 a)), [])
-         | None => (st, PANIC) end
+         | None => (st, EMPTY) end
   | 2 => match get_slot st slot with
          | Some f => (st, [zbool (bf_contains f (arg_h0 a) (arg_h1 a))])
-         | None => (st, PANIC) end
+         | None => (st, EMPTY) end
   | 3 => match get_slot st slot with
          | Some f => let '(b, f') := bf_contains_and_insert f (arg_h0 a) (arg_h1 a) in
                      (put_slot st slot f', [zbool b])
-         | None => (st, PANIC) end
+         | None => (st, EMPTY) end
   | 4 => match get_slot st slot, get_slot st (nth 1 a 0) with
          | Some f, Some g => match bf_union f g with
                              | Ok f' => (put_slot st slot f', [])
                              | _ => (st, PANIC) end
-         | _, _ => (st, PANIC) end
+         | _, _ => (st, EMPTY) end
   | 5 => match get_slot st slot, get_slot st (nth 1 a 0) with
          | Some f, Some g => match bf_intersect f g with
                              | Ok f' => (put_slot st slot f', [])
                              | _ => (st, PANIC) end
-         | _, _ => (st, PANIC) end
+         | _, _ => (st, EMPTY) end
   | 6 => match get_slot st slot with
          | Some f => match bf_invert f with
                      | Ok f' => (put_slot st slot f', [])
                      | _ => (st, PANIC) end
-         | None => (st, PANIC) end
+         | None => (st, EMPTY) end
   | 7 => match get_slot st slot with
          | Some f => (put_slot st slot (bf_reset f), [])
-         | None => (st, PANIC) end
+         | None => (st, EMPTY) end
   | 8 => match get_slot st slot with
          | Some f => (st, [Nz (bf_used f)])
-         | None => (st, PANIC) end
+         | None => (st, EMPTY) end
   | 9 => match get_slot st slot with
          | Some f => (st, map Nz (bf_serialize f))
-         | None => (st, PANIC) end
+         | None => (st, EMPTY) end
   | 10 => match get_slot st slot with
           | Some f => match bf_deserialize (bf_serialize f) with
                       | Ok f' => (put_slot st slot f', [1])
                       | Err => (st, ERR)
                       | Stuck => (st, PANIC) end
-          | None => (st, PANIC) end
+          | None => (st, EMPTY) end
   | 11 => match bf_deserialize (map zN (skipn 1 a)) with
           | Ok f' => (put_slot st slot f', [1])
           | Err => (st, ERR)
           | Stuck => (st, PANIC) end
   | 12 => match get_slot st slot with
           | Some f => (st, [Nz (bf_capacity f); Nz (bf_nh f); Nz (bf_seed f); zbool (bf_is_empty f)])
-          | None => (st, PANIC) end
+          | None => (st, EMPTY) end
   | 13 => match get_slot st slot, get_slot st (nth 1 a 0) with
           | Some f, Some g => (st, [zbool (bf_is_compatible f g)])
-          | _, _ => (st, PANIC) end
+          | _, _ => (st, EMPTY) end
   | 14 => (* with_accuracy(n, p).seed(seed): a = slot :: n :: p bits :: seed :: num_bits :: num_hashes, the
              last two being the ln-based sizing recomputed by the generator (no Coq counterpart) *)
           match bf_with_size (zN (nth 4 a 0)) (zN (nth 5 a 0)) (zN (nth 3 a 0)) with
@@ -84,7 +87,24 @@ Definition step (st : slots) (o : zop) : slots * list Z :=
           | _ => (st, PANIC) end
   | 15 => match get_slot st slot with
           | Some f => (st, [count_contained f (skipn 2 a) 0])
-          | None => (st, PANIC) end
+          | None => (st, EMPTY) end
+  | 16 => (* fork: a = src :: dst; dst := deserialize(serialize(src)), src kept *)
+          match get_slot st slot with
+          | Some f => match bf_deserialize (bf_serialize f) with
+                      | Ok f' => (put_slot st (nth 1 a 0) f', [1])
+                      | Err => (st, ERR)
+                      | Stuck => (st, PANIC) end
+          | None => (st, EMPTY) end
+  | 17 => (* parse untrusted bytes: a = slot :: bytes; the slot is cleared first.  The harness counts
+             the bytes allocated inside deserialize() and reports a peak above 64 * len + 1 MiB as
+             ALLOC (the value is dropped); bf_alloc_bytes is the model's account of the same. *)
+          let bs := map zN (skipn 1 a) in
+          let st0 := set_nth (Z.to_nat slot) None st in
+          if (64 * N.of_nat (length bs) + 1048576 <? bf_alloc_bytes bs)%N then (st0, ALLOC)
+          else match bf_deserialize bs with
+               | Ok f' => (put_slot st slot f', [1])
+               | Err => (st0, ERR)
+               | Stuck => (st0, PANIC) end
   | _ => (st, PANIC)
   end.
 
@@ -150,17 +170,22 @@ Definition serialize_ok (s : sp) (bs : list Z) : bool :=
   if image_empty bs then card (sp_set s) =? 0
   else beqb_list (image_bits bs) (sp_set s) && (image_count bs =? card (sp_set s)).
 
-(* a foreign image accepted by the crate: the set it denotes, when its count field is
-   consistent with its array (exact, or the "dirty" marker 2^64-1); otherwise nothing is claimed *)
+(* a foreign image: the state it denotes according to the layout specification
+   (Spec/BloomLayout.v: spec_decode), None when the specification does not accept it *)
+Definition sp_of_abs (d : bloom_abs) : sp := mkSp (Nz (a_nh d)) (Nz (a_seed d)) (spec_set (a_words d)).
 Definition image_spec (bs : list Z) : option sp :=
-  let nh := le_valZ (firstn 2 (skipn 4 bs)) in
-  let seed := le_valZ (firstn 8 (skipn 8 bs)) in
-  let nw := le_valZ (firstn 4 (skipn 16 bs)) in
-  if image_empty bs then Some (mkSp nh seed (repeat false (Z.to_nat (64 * nw))))
-  else
-    let v := firstn (Z.to_nat (64 * nw)) (image_bits bs) in
-    if (image_count bs =? 18446744073709551615) || (image_count bs =? card v) then Some (mkSp nh seed v)
-    else None.
+  match spec_decode (map zN bs) with Some d => Some (sp_of_abs d) | None => None end.
+
+(* C12 + C18 on one serialize() observation: the independent layout decoder recovers exactly the
+   Spec's state (configuration, bit set, cardinality), and the image has the size the
+   configuration dictates: 24 bytes for the empty set, else 32 + 8 bytes per word *)
+Definition layout_ok (s : sp) (ob : list Z) : bool :=
+  match spec_decode (map zN ob) with
+  | Some d => (Nz (a_nh d) =? sp_nh s) && (Nz (a_seed d) =? sp_seed s) && (64 * Nz (a_nw d) =? sp_cap s)
+              && beqb_list (spec_set (a_words d)) (sp_set s) && (Nz (a_count d) =? card (sp_set s))
+              && (Z.of_nat (length ob) =? (if card (sp_set s) =? 0 then 24 else 32 + sp_cap s / 8))
+  | None => false
+  end.
 
 Fixpoint count_spec (s : sp) (l : list Z) (acc : Z) : Z :=
   match l with
@@ -168,67 +193,96 @@ Fixpoint count_spec (s : sp) (l : list Z) (acc : Z) : Z :=
   | _ => acc
   end.
 
-Fixpoint prop_from (st : ospec) (ops : list zop) (obs : list (list Z)) : bool :=
+(* [chk] judges a serialize() observation; [strict] additionally demands that every image the layout
+   specification accepts is accepted by the crate (C13) *)
+Fixpoint prop_from (chk : sp -> list Z -> bool) (strict : bool) (st : ospec) (ops : list zop) (obs : list (list Z)) : bool :=
   match ops, obs with
   | (code, a) :: r, ob :: obr =>
       let slot := nth 0 a 0 in
       if list_eqb Z.eqb ob PANIC then true else
       match code with
       | 0 => let words := (nth 1 a 0 + 63) / 64 in
-             prop_from (op_ st slot (Some (mkSp (nth 2 a 0) (nth 3 a 0) (repeat false (Z.to_nat (64 * words)))))) r obr
+             prop_from chk strict (op_ st slot (Some (mkSp (nth 2 a 0) (nth 3 a 0) (repeat false (Z.to_nat (64 * words)))))) r obr
       | 1 => match og st slot with
-             | Some s => prop_from (op_ st slot (Some (sp_insert s (nth 2 a 0) (nth 3 a 0)))) r obr
-             | None => prop_from st r obr end
+             | Some s => prop_from chk strict (op_ st slot (Some (sp_insert s (nth 2 a 0) (nth 3 a 0)))) r obr
+             | None => prop_from chk strict st r obr end
       | 2 => match og st slot with
-             | Some s => (nth 0 ob (-1) =? zbool (sp_contains s (nth 2 a 0) (nth 3 a 0))) && prop_from st r obr
-             | None => prop_from st r obr end
+             | Some s => (nth 0 ob (-1) =? zbool (sp_contains s (nth 2 a 0) (nth 3 a 0))) && prop_from chk strict st r obr
+             | None => prop_from chk strict st r obr end
       | 3 => match og st slot with
              | Some s => (nth 0 ob (-1) =? zbool (sp_contains s (nth 2 a 0) (nth 3 a 0)))
-                         && prop_from (op_ st slot (Some (sp_insert s (nth 2 a 0) (nth 3 a 0)))) r obr
-             | None => prop_from st r obr end
+                         && prop_from chk strict (op_ st slot (Some (sp_insert s (nth 2 a 0) (nth 3 a 0)))) r obr
+             | None => prop_from chk strict st r obr end
       | 4 => match og st slot, og st (nth 1 a 0) with
              | Some s, Some t => if sp_compatible s t
-                                 then prop_from (op_ st slot (Some (mkSp (sp_nh s) (sp_seed s) (map2 orb (sp_set s) (sp_set t))))) r obr
-                                 else prop_from (op_ st slot None) r obr
-             | _, _ => prop_from (op_ st slot None) r obr end
+                                 then prop_from chk strict (op_ st slot (Some (mkSp (sp_nh s) (sp_seed s) (map2 orb (sp_set s) (sp_set t))))) r obr
+                                 else prop_from chk strict (op_ st slot None) r obr
+             | _, _ => prop_from chk strict (op_ st slot None) r obr end
       | 5 => match og st slot, og st (nth 1 a 0) with
              | Some s, Some t => if sp_compatible s t
-                                 then prop_from (op_ st slot (Some (mkSp (sp_nh s) (sp_seed s) (map2 andb (sp_set s) (sp_set t))))) r obr
-                                 else prop_from (op_ st slot None) r obr
-             | _, _ => prop_from (op_ st slot None) r obr end
+                                 then prop_from chk strict (op_ st slot (Some (mkSp (sp_nh s) (sp_seed s) (map2 andb (sp_set s) (sp_set t))))) r obr
+                                 else prop_from chk strict (op_ st slot None) r obr
+             | _, _ => prop_from chk strict (op_ st slot None) r obr end
       | 6 => match og st slot with
-             | Some s => prop_from (op_ st slot (Some (mkSp (sp_nh s) (sp_seed s) (map negb (sp_set s))))) r obr
-             | None => prop_from st r obr end
+             | Some s => prop_from chk strict (op_ st slot (Some (mkSp (sp_nh s) (sp_seed s) (map negb (sp_set s))))) r obr
+             | None => prop_from chk strict st r obr end
       | 7 => match og st slot with
-             | Some s => prop_from (op_ st slot (Some (mkSp (sp_nh s) (sp_seed s) (map (fun _ => false) (sp_set s))))) r obr
-             | None => prop_from st r obr end
+             | Some s => prop_from chk strict (op_ st slot (Some (mkSp (sp_nh s) (sp_seed s) (map (fun _ => false) (sp_set s))))) r obr
+             | None => prop_from chk strict st r obr end
       | 8 => match og st slot with
-             | Some s => (nth 0 ob (-1) =? card (sp_set s)) && prop_from st r obr
-             | None => prop_from st r obr end
+             | Some s => (nth 0 ob (-1) =? card (sp_set s)) && prop_from chk strict st r obr
+             | None => prop_from chk strict st r obr end
       | 9 => match og st slot with
-             | Some s => serialize_ok s ob && prop_from st r obr
-             | None => prop_from st r obr end
+             | Some s => chk s ob && prop_from chk strict st r obr
+             | None => prop_from chk strict st r obr end
       | 10 => match og st slot with
-              | Some s => list_eqb Z.eqb ob [1] && prop_from st r obr
-              | None => prop_from st r obr end
-      | 11 => if list_eqb Z.eqb ob [1] then prop_from (op_ st slot (image_spec (skipn 1 a))) r obr
-              else prop_from st r obr
+              | Some s => list_eqb Z.eqb ob [1] && prop_from chk strict st r obr
+              | None => prop_from chk strict st r obr end
+      | 11 => if list_eqb Z.eqb ob [1] then prop_from chk strict (op_ st slot (image_spec (skipn 1 a))) r obr
+              else if strict then match image_spec (skipn 1 a) with Some _ => false | None => prop_from chk strict st r obr end
+              else prop_from chk strict st r obr
       | 12 => match og st slot with
               | Some s => (nth 0 ob (-1) =? sp_cap s) && (nth 1 ob (-1) =? sp_nh s) && (nth 2 ob (-1) =? sp_seed s)
-                          && (nth 3 ob (-1) =? zbool (card (sp_set s) =? 0)) && prop_from st r obr
-              | None => prop_from st r obr end
+                          && (nth 3 ob (-1) =? zbool (card (sp_set s) =? 0)) && prop_from chk strict st r obr
+              | None => prop_from chk strict st r obr end
       | 14 => (* sizing is transcendental: take the crate's own answer for capacity / num_hashes *)
-              prop_from (op_ st slot (Some (mkSp (nth 1 ob 0) (nth 3 a 0) (repeat false (Z.to_nat (nth 0 ob 0)))))) r obr
+              prop_from chk strict (op_ st slot (Some (mkSp (nth 1 ob 0) (nth 3 a 0) (repeat false (Z.to_nat (nth 0 ob 0)))))) r obr
+      | 16 => (* fork: the copy denotes the same set; the round trip of a known state must succeed *)
+              match og st slot with
+              | Some s => list_eqb Z.eqb ob [1] && prop_from chk strict (op_ st (nth 1 a 0) (Some s)) r obr
+              | None => prop_from chk strict (op_ st (nth 1 a 0) None) r obr end
+      | 17 => if list_eqb Z.eqb ob [1] then prop_from chk strict (op_ st slot (image_spec (skipn 1 a))) r obr
+              else if strict && negb (list_eqb Z.eqb ob ALLOC)
+                   then match image_spec (skipn 1 a) with Some _ => false | None => prop_from chk strict (op_ st slot None) r obr end
+              else prop_from chk strict (op_ st slot None) r obr
       | 15 => match og st slot with
-              | Some s => (nth 0 ob (-1) =? count_spec s (skipn 2 a) 0) && (nth 0 ob (-1) <=? nth 1 a 0) && prop_from st r obr
-              | None => prop_from st r obr end
-      | _ => prop_from st r obr
+              | Some s => (nth 0 ob (-1) =? count_spec s (skipn 2 a) 0) && (nth 0 ob (-1) <=? nth 1 a 0) && prop_from chk strict st r obr
+              | None => prop_from chk strict st r obr end
+      | _ => prop_from chk strict st r obr
       end
   | _, _ => true
   end.
 
-Definition prop_ok (c : case) : bool :=
-  prop_from (repeat None (Z.to_nat (nth 0 (c_cfg c) 8))) (c_ops c) (c_obs c).
+Definition prop_with (chk : sp -> list Z -> bool) (strict : bool) (c : case) : bool :=
+  prop_from chk strict (repeat None (Z.to_nat (nth 0 (c_cfg c) 8))) (c_ops c) (c_obs c).
+
+(* C09: the position-set Spec *)
+Definition prop_ok : case -> bool := prop_with serialize_ok false.
+
+(* C11: deserialize(serialize(f)) behaves exactly as f (twin oracle); new / deserialize / new_with_accuracy /
+   parse re-initialise a slot *)
+Definition prop_roundtrip : case -> bool := twin_oracle 16 [0; 11; 14; 17].
+
+(* C12 / C18: every emitted image decodes, with the independent layout decoder, to the Spec's state and
+   has the size fixed by the configuration *)
+Definition prop_layout : case -> bool := prop_with layout_ok false.
+
+(* C14 / C17 *)
+Definition no_panic : case -> bool := no_panic_oracle.
+
+(* C13: every image the layout specification accepts is accepted and denotes the encoded state *)
+Definition prop_foreign : case -> bool := prop_with layout_ok true.
 
 (* oracles by number (tools/families/bloom.py: ORACLES) *)
-Definition oracles : list (Z * (case -> bool)) := [(0, prop_ok)].
+Definition oracles : list (Z * (case -> bool)) :=
+  [(0, prop_ok); (1, prop_roundtrip); (2, prop_layout); (3, no_panic); (4, prop_foreign)].
